@@ -10,6 +10,7 @@ import Proofs.LeftReveal
 import Proofs.LeftRevealB
 import Proofs.LeftBoth
 import Proofs.LeftSquare
+import Proofs.LeftReset
 import Proofs.WellFormed
 /-! C08 — Chart-state scoring equals left-to-right scoring for every derivation.
 
@@ -398,5 +399,55 @@ theorem nonterminal_dead_branches (T : Table) (R : Ptr → Rat) (bos : Option Wo
   refine ⟨fun ⟨h1, h2, h3⟩ => ?_, fun ⟨h1, h2⟩ => ?_⟩
   · have := hs h2; omega
   · have := hc h1; omega
+
+/-! ## API histories: a reused `RuleScore` is a fresh one -/
+
+/-- **`Reset` makes a used object observationally fresh.**  Whatever the history of the object (`rs`) and whatever
+stale value `out_->left.full` holds in the target state, a rule application scored after `Reset()` /
+`Reset(ChartState&)` (optionally `BeginSentence()` first) finishes with exactly the chart state and score of a fresh
+`RuleScore`: `left.full` is never read before `Finish` overwrites it.  Hence every C08 theorem about `ruleScore`
+applies verbatim to decoders that keep one object (results of non-terminals are values, so by this theorem a bottom-up
+decoder that resets one object before every rule computes the same values as `applyRule`, which scores kids afresh).
+`BeginNonTerminal` overwrites the whole object (`beginNonTerminal` does not take the old one). -/
+theorem reset_equiv_fresh (T : Table) (R : Ptr → Rat) (stale : Bool) (rs : RS) (bos : Option Word) (r : Rule) :
+    finish T.order (applyRule T R
+      (match bos with | some b => beginSentence T R b (reset stale rs) | none => reset stale rs) r) = ruleScore T R bos r := by
+  unfold ruleScore
+  apply finish_eqF
+  apply applyRule_eqF
+  cases bos with
+  | none => exact reset_eqF stale rs
+  | some b => exact beginSentence_eqF T R b (reset_eqF stale rs)
+
+/-- the object after any closed-left history: here just `BeginSentence(); Finish()` -/
+def usedObject : RS := beginSentence (build demo) (noRest (build demo)) 1 RS.init
+
+/-- **The seeded variant C08-6 (`Reset` keeps `left_done_`) is not observationally fresh**: on the reused object the
+fragment `b c d` records no left pointers and is marked full with length 0 … -/
+theorem reset_keeping_done_not_fresh :
+    ¬ ∀ (T : Table) (R : Ptr → Rat) (stale : Bool) (rs : RS) (r : Rule),
+        finish T.order (applyRule T R (resetKeepsDone stale rs) r) = ruleScore T R none r := by
+  intro h
+  have := h (build demo) (noRest (build demo)) false usedObject (.cons (.term 3) (.cons (.term 4) (.cons (.term 5) .nil)))
+  revert this
+  decide +kernel
+
+/-- … and the left context applied later is ignored: `<s> a ( b c d )` with the kid scored on the reused object
+does not total to the left-to-right score (with `reset` it does, by `reset_equiv_fresh` and `any_derivation`). -/
+theorem reset_keeping_done_breaks_total :
+    (let T := build demo; let R := noRest T
+     let kid := finish T.order (applyRule T R (resetKeepsDone false usedObject)
+                  (.cons (.term 3) (.cons (.term 4) (.cons (.term 5) .nil))))
+     (finish T.order (nonTerminal T R (terminal T R (beginSentence T R 1 RS.init) 2) kid.1 kid.2)).2)
+      ≠ specSeq demo [1] [2,3,4,5] := by
+  decide +kernel
+
+example :
+    (let T := build demo; let R := noRest T
+     let kid := finish T.order (applyRule T R (reset true usedObject)
+                  (.cons (.term 3) (.cons (.term 4) (.cons (.term 5) .nil))))
+     (finish T.order (nonTerminal T R (terminal T R (beginSentence T R 1 RS.init) 2) kid.1 kid.2)).2)
+      = specSeq demo [1] [2,3,4,5] := by
+  decide +kernel
 
 end KV.C08
